@@ -1172,8 +1172,8 @@ def _never_none(e, known: dict) -> bool:
 def thread_none_flags(stmts: list[ast.stmt]) -> list[ast.stmt]:
     """if C: ..; v = <something>   else: ..; v = None          if C: ..; v = <something>; A
        if v is not None: A  else: B                      ->    else: ..; v = None; B
-    a decision recorded in whether v is None and asked again straight afterwards is the decision itself (each arm of the second
-    test is moved to the end of the branch that makes it true; nothing is duplicated)"""
+    a decision recorded in whether v is None and asked again straight afterwards is the decision itself: each arm of the second test
+    is moved to the end of the branches (of the if / elif chain) that make it true"""
     def ends(block):
         if not block:
             return False
@@ -1184,19 +1184,43 @@ def thread_none_flags(stmts: list[ast.stmt]) -> list[ast.stmt]:
             return bool(s_.orelse) and ends(s_.body) and ends(s_.orelse)
         return False
 
-    def state(block, v):
-        """'none' / 'some' for v where the block falls through, None if unknown"""
-        last = None
+    def some(e):
+        if _never_none(e, {}):
+            return True
+        # a constructor call (classes are spelled with a capital)
+        if isinstance(e, ast.Call):
+            f = e.func
+            nm = f.id if isinstance(f, ast.Name) else (f.attr if isinstance(f, ast.Attribute) else "")
+            return nm.lstrip("_")[:1].isupper()
+        return False
+
+    def leaves(block, v):
+        """[(leaf block, 'none' | 'some')] for the ways the block falls through, None if v's state is unknown on one of them"""
+        if ends(block):
+            return []
+        if not block:
+            return None
+        last = block[-1]
+        if isinstance(last, ast.If) and last.orelse and v in _assigned_names([last]):
+            if any(v in _assigned_names([x]) for x in block[:-1]) and False:
+                return None
+            a, b = leaves(last.body, v), leaves(last.orelse, v)
+            if a is None or b is None:
+                return None
+            return a + b
+        st = None
         for x in block:
             if isinstance(x, ast.Assign) and len(x.targets) == 1 and isinstance(x.targets[0], ast.Name) and x.targets[0].id == v:
-                last = x
+                st = x
             elif v in _assigned_names([x]):
                 return None
-        if last is None:
+        if st is None:
             return None
-        if isinstance(last.value, ast.Constant) and last.value.value is None:
-            return "none"
-        return "some" if _never_none(last.value, {}) else None
+        if isinstance(st.value, ast.Constant) and st.value.value is None:
+            return [(block, "none")]
+        return [(block, "some")] if some(st.value) else None
+
+    fresh = [0]
 
     def block(b):
         b = list(b)
@@ -1219,13 +1243,27 @@ def thread_none_flags(stmts: list[ast.stmt]) -> list[ast.stmt]:
                         and isinstance(t.comparators[0], ast.Constant) and t.comparators[0].value is None:
                     v = t.left.id
                     some_arm, none_arm = (s2.body, s2.orelse) if isinstance(t.ops[0], ast.IsNot) != neg else (s2.orelse, s2.body)
-                    sts = [None if ends(br) else state(br, v) for br in (s1.body, s1.orelse)]
-                    live = [(br, st) for br, st in zip((s1.body, s1.orelse), sts) if not ends(br)]
-                    if live and all(st is not None for _, st in live) and len({st for _, st in live}) == len(live):
+                    live = leaves([s1], v)
+                    # (an arm may be written into several branches as long as it is small; both outcomes must occur, otherwise the test
+                    # is decided outright and folded elsewhere)
+                    if live and {st for _, st in live} == {"some", "none"} and \
+                            sum(1 for _, st in live if st == "some") * sum(1 for x in some_arm for _ in ast.walk(x)) <= 400 and \
+                            sum(1 for _, st in live if st == "none") * sum(1 for x in none_arm for _ in ast.walk(x)) <= 400:
+                        # v read nowhere but in the second test and its arms: each branch gets its own name for it (the value filed
+                        # there is then read only there)
+                        inside = sum(1 for n in ast.walk(s2) if isinstance(n, ast.Name) and n.id == v and isinstance(n.ctx, ast.Load))
+                        total = sum(1 for x in stmts for n in ast.walk(x) if isinstance(n, ast.Name) and n.id == v and isinstance(n.ctx, ast.Load))
                         for br, st in live:
-                            br.extend(copy.deepcopy(x) for x in (some_arm if st == "some" else none_arm))
+                            arm = [copy.deepcopy(x) for x in (some_arm if st == "some" else none_arm)]
+                            if inside == total and st == "some" and not any(v in _assigned_names([x]) for x in arm):
+                                fresh[0] += 1
+                                nm = f"{v}__{fresh[0]}"
+                                last = [x for x in br if isinstance(x, ast.Assign) and len(x.targets) == 1 and isinstance(x.targets[0], ast.Name) and x.targets[0].id == v][-1]
+                                if not any(isinstance(n, ast.Name) and n.id == v for x in br[br.index(last) + 1:] for n in ast.walk(x)):
+                                    last.targets[0] = ast.Name(id=nm, ctx=ast.Store())
+                                    arm = [_Rename({v: nm}).visit(x) for x in arm]
+                            br.extend(arm)
                         del b[i + 1]
-                        b[i] = s1
                         continue
             i += 1
         return b
